@@ -490,3 +490,57 @@ func VP_C02_rawmsg_wide() {
 	vp.Assert(err == nil && g.Z == int8(payload[len(payload)-2]), "unknown fields are skipped")
 	vp.Cover("end")
 }
+
+// the StringifiedMessage carrier: a value captured as text and written back
+// gives the bytes it was read from - scalars, strings, byte/int/long arrays with
+// arbitrary elements (negative ones included), a list and a compound; as the
+// root target and as a struct field.
+func VP_C02_snbt_carrier() {
+	var tag byte
+	var b []byte
+	switch vp.Choice(7) {
+	case 0:
+		tag, b = TagByte, vp.Bytes(1)
+	case 1:
+		tag, b = TagShort, vp.Bytes(2)
+	case 2:
+		tag, b = TagByteArray, append([]byte{0, 0, 0, 3}, vp.Bytes(3)...)
+	case 3:
+		v := vp.Int32()
+		vp.Assume(v > -100000 && v < 100000)
+		tag, b = TagIntArray, append([]byte{0, 0, 0, 2, 0, 0, 0, 7}, vpBE(uint64(uint32(v)), 4)...)
+	case 4:
+		v := vp.Int32()
+		vp.Assume(v > -100000 && v < 100000)
+		tag, b = TagLongArray, append([]byte{0, 0, 0, 1}, vpBE(uint64(int64(v)), 8)...)
+	case 5:
+		tag, b = TagList, append([]byte{TagByte, 0, 0, 0, 2}, vp.Bytes(2)...)
+	default:
+		tag, b = TagCompound, append(append(vpTagHdr(TagByteArray, "a"), 0, 0, 0, 2), append(vp.Bytes(2), 0)...)
+	}
+	vp.SizeBound(len(b) + 40)
+	if vp.Bool() {
+		var m StringifiedMessage
+		r := &vpByteReader{b: append(append([]byte{}, b...), 0x42)}
+		vp.Assert(m.UnmarshalNBT(tag, r) == nil && r.pos == len(b), "a well-formed value is captured")
+		var w vpBuf
+		vp.Assert(m.MarshalNBT(&w) == nil, "re-encoding succeeds")
+		vp.Assert(m.TagType() == tag && string(w.b) == string(b), "re-encoding reproduces the bytes")
+	} else {
+		var s struct {
+			F StringifiedMessage `nbt:"f"`
+		}
+		doc := append(append([]byte{TagCompound}, vpTagHdr(tag, "f")...), b...)
+		doc = append(doc, 0)
+		d := NewDecoder(&vpByteReader{b: append(append([]byte{}, doc...), 0x42)})
+		d.NetworkFormat(true)
+		_, err := d.Decode(&s)
+		vp.Assert(err == nil, "a well-formed value is captured")
+		var w vpBuf
+		e := NewEncoder(&w)
+		e.NetworkFormat(true)
+		vp.Assert(e.Encode(s, "") == nil, "re-encoding succeeds")
+		vp.Assert(string(w.b) == string(doc), "re-encoding reproduces the bytes")
+	}
+	vp.Cover("end")
+}
